@@ -12,7 +12,9 @@
       the default is emitted;
     * explicit `null` for a struct/ref/enum/map/array/union-kind field whose `__init__` replaces
       `None` by a default;
-    * unknown / non-string / catch-all discriminators; constant references; composable slots.
+    * unknown / non-string / catch-all discriminators; composable slots;
+    * a member pinned to an enum member (constant reference) whose document value is not the value of
+      the member `MemberForValue` finds.
 
   `accepts` is the document language J⟦S,t⟧ of an IR type (closed structs, required members
   present, `null` only where nullable, constants equal, enum members, any branch of a union):
@@ -22,15 +24,16 @@ import Cog.Sem.PyCodec
 namespace Cog.Sem
 open Cog.IR
 
-def pyFieldOK (d : Ty → Json → Bool) (members : List (String × Json)) (f : Field) : Bool :=
-  !isCref f.ty && !isSlot f.ty &&
-  match constOf f.ty with
-  | some c =>
-    -- the constant is assigned by `__init__` and always emitted: the document must carry it
-    match valToPy c, Json.lookup f.name members with
-    | some pv, some v => !pv.isNone && Json.sub (pyToJson pv) v && Json.sub v (pyToJson pv)
+def pyFieldOK (ss : Schemas) (d : Ty → Json → Bool) (members : List (String × Json)) (f : Field) : Bool :=
+  match fixedValue ss f.ty with
+  | some r =>
+    -- a constant / a member pinned to an enum member is assigned by `__init__` and always emitted:
+    -- the document must carry exactly that value
+    match r, Json.lookup f.name members with
+    | .ok pv, some v => !pv.isNone && Json.sub (pyToJson pv) v && Json.sub v (pyToJson pv)
     | _, _ => false
   | none =>
+    !isSlot f.ty &&
     match Json.lookup f.name members with
     | some v => d f.ty v && (!v.isNull || !isRefLike f.ty || !needsDefault f.ty)
     | none => !f.required && !needsDefault f.ty
@@ -49,7 +52,7 @@ def pyDen : Nat → Schemas → Ty → Json → Bool
           | .obj members =>
             keysNodup members && namesNodup (fields.map (·.name)) &&
             members.all (fun kv => (fields.map (·.name)).contains kv.1) &&
-            fields.all (pyFieldOK (pyDen fuel ss) members)
+            fields.all (pyFieldOK ss (pyDen fuel ss) members)
           | _ => false
         | other => pyDen fuel ss other j
     | .array e _ =>
@@ -121,6 +124,7 @@ def accepts : Nat → Schemas → Ty → Json → Bool
       | .obj kvs => keysNodup kvs && kvs.all (fun kv => accepts fuel ss v kv.2)
       | _ => false
     | .enum vals _ => vals.any (fun ev => valJsonEq ev.value j)
+    | .cref _ _ v _ => valJsonEq v j            -- pinned to one enum member: exactly that value
     | .disj bs _ _ => bs.any (fun b => accepts fuel ss b j)
     | _ => false
 
